@@ -29,7 +29,14 @@ RULE = ("One feature with 1-2 scenarios of 1-3 steps. Every step function (befor
         "the failing reports; sys.stdout/sys.stderr ARE the sentinels at every match()/result() callback, in "
         "before/after_scenario, after_feature and after the run; root logger's non-behave handlers and level at the next "
         "scenario start / feature end equal the snapshot taken in before_scenario (which sets a distinctive level 25 and adds "
-        "the user handler). Non-trivial = distinct case with at least one capture switch on and at least one executed "
+        "the user handler). "
+        "Volume dimension: a passing step emits N stdout lines, N stderr lines and N log records before the failing step, "
+        "N = capacity-1, capacity, capacity+1, 2*capacity+1 where capacity is read at run time from the real LoggingCapture "
+        "handler object (logging.handlers.BufferingHandler capacity, the only size constant in behave/capture.py and "
+        "behave/log_capture.py; the stdout/stderr buffers are unbounded StringIOs), once counting the volume records alone and "
+        "once counting ALL buffered records of the scenario, x 8 switches; same oracle on the complete marker sets plus "
+        "first/last/count of each captured channel, and the next scenario's report holds none of them. "
+        "Non-trivial = distinct case with at least one capture switch on and at least one executed "
         "failing step (the report is then non-empty and the restore paths after an exception are exercised).")
 ASSUMPTIONS = ["scenario hooks do not print (before_scenario runs before the per-scenario buffers exist; statement is about steps and step hooks)",
                "a user-installed root handler that is kept (no --logging-clear-handlers) still receives records while log capture is on; it is not a 'real stream'",
@@ -532,8 +539,10 @@ def volume_case(case):
                 continue
             cnt = len(re.findall(r"<%s:s%dk%dv\d+>" % (chan, si, vk), emsg))
             if first not in emsg or last not in emsg or cnt != n:
+                total = sum(1 for mk in obs["produced"] if mkey(mk)[0] == si and mkey(mk)[1] <= fk and rt[mk] == "cap"
+                            and CHAN_NAME[MARK.match(mk).group(1)] == CHAN_NAME[chan])
                 v.append(({"subcheck": "volume", "clause": "report-truncated", "channel": CHAN_NAME[chan],
-                           "volume": "N>=handler-capacity" if n >= cap else "N<handler-capacity"},
+                           "volume": "captured-records>=handler-capacity" if total >= cap else "below-capacity"},
                           "switches %s, %s: %d %s markers emitted (capacity %d), report holds %d, first present=%s, "
                           "last present=%s" % ("".join("1" if x else "0" for x in sw), lvname, n, CHAN_NAME[chan], cap,
                                                cnt, first in emsg, last in emsg)))
@@ -767,6 +776,7 @@ def run(ctx):
         ctx.bounds = {"scenarios": "1-2", "steps_per_scenario": "single scenario: all outcome sequences of length <= 3; two scenarios: all pairs of "
                       "sequences of length <= 3 whose never-executed tail after the first failing step is 'pass'",
                       "outcomes": len(OUTCOMES), "switch_combinations": 8, "logging_variants": 8, "child_processes": len(CHILD_CASES)}
+    ctx.bounds["volume_N"] = ["%d*capacity%+d" % mo for mo in VOLUMES]
     ctx.sweep(run_case, cases(ctx.tier), chunk=48, name="outcome sequences x 8 capture switches x logging variants")
     ctx.sweep(volume_case, volume_cases(ctx.tier), chunk=2, name="volume: N lines/records around the log handler capacity")
     if ctx.quick:
